@@ -1,4 +1,4 @@
-import FrappyProofs.Lemmas.Klass
+import FrappyProofs.Lemmas.KlassProps
 /-
 C09 — property theorems (nothing but property theorems and their non-vacuity examples).
 -/
@@ -234,6 +234,49 @@ theorem order_independent_partial (T : Tables) (env : Name → Option ClassDecl)
   rw [e1] at e2
   exact ⟨Option.some.inj e2, _, e1⟩
 
+/-- the heap shows of the module properties of every class exactly what was computed at value level, after every
+admissible program whose class bodies are Python dicts -/
+theorem mInv_run (T : Tables) (ops : List Op) (w : World) (hb : Bounded w) (hs : Separated w)
+    (hrun : AdmissibleRun T w ops) (hwf : ∀ op ∈ ops, WellFormed op) (h : MInv w) : MInv (run T w ops) := by
+  induction ops generalizing w with
+  | nil => exact h
+  | cons op ops ih =>
+    have hp := separated_preserved T w op hrun.1 hb hs
+    simp only [run, List.foldl_cons]
+    exact ih (step T w op) hp.1 hp.2 hrun.2 (fun op' h' => hwf op' (List.mem_cons_of_mem _ h'))
+      (mInv_step T w op hrun.1 (hwf op List.mem_cons_self) hb hs h)
+
+/-- **faithfulness of the heap layout, module-level part**: after any admissible program, what a class shows of its
+module properties (`describeM`: the Property objects its `propertyDict` points to, as they are in the heap) is exactly
+`ClassRec.pure.props`, the value computed by `HasProperties.__init_subclass__` at value level -/
+theorem class_mprops_faithful (T : Tables) (ops : List Op) (hrun : AdmissibleRun T {} ops)
+    (hwf : ∀ op ∈ ops, WellFormed op) (n : Name) (cr : ClassRec) (h : (run T {} ops).findClass n = some cr) :
+    describeM (run T {} ops) (.cls n) = cr.pure.props.map (fun ks => (ks.1, ⟨some ks.2.val, none⟩)) := by
+  have hempty : MInv {} := fun c cr h => by simp [World.findClass] at h
+  have hinv := mInv_run T ops {} empty_world_ok.1 empty_world_ok.2 hrun hwf hempty n cr h
+  simp only [describeM, h]
+  have := congrArg (List.map (fun kv : Name × Option PropV => (kv.1, (⟨kv.2, none⟩ : MView)))) hinv.2.2
+  rw [List.map_map, List.map_map] at this
+  exact this
+
+/-- **order independence, module-level part (full)**: in any two programs that define their classes with the same
+bodies (`env`), each in an order consistent with inheritance — whatever else they define, instantiate, configure or
+mutate in between — a class defined by both shows the same module properties in the heap: a function of its own class
+chain only -/
+theorem order_independent_mprops (T : Tables) (env : Name → Option ClassDecl) (ops1 ops2 : List Op)
+    (ha1 : AdmissibleRun T {} ops1) (hc1 : ConsistentRun T env {} ops1) (hw1 : ∀ op ∈ ops1, WellFormed op)
+    (ha2 : AdmissibleRun T {} ops2) (hc2 : ConsistentRun T env {} ops2) (hw2 : ∀ op ∈ ops2, WellFormed op)
+    (n : Name) (h1 : (run T {} ops1).findClass n ≠ none) (h2 : (run T {} ops2).findClass n ≠ none) :
+    describeM (run T {} ops1) (.cls n) = describeM (run T {} ops2) (.cls n) := by
+  cases hf1 : (run T {} ops1).findClass n with
+  | none => exact absurd hf1 h1
+  | some cr1 =>
+    cases hf2 : (run T {} ops2).findClass n with
+    | none => exact absurd hf2 h2
+    | some cr2 =>
+      rw [class_mprops_faithful T ops1 ha1 hw1 n cr1 hf1, class_mprops_faithful T ops2 ha2 hw2 n cr2 hf2,
+        (order_independent_partial T env ops1 ops2 ha1 hc1 ha2 hc2 n cr1 cr2 hf1 hf2).1]
+
 /-! ## non-vacuity -/
 
 /-- a small table set for the examples -/
@@ -326,6 +369,42 @@ example :
     ((describeM (run exT {} exOps2) (.inst "j2")).filterMap exportM) = [("group", "\"x\"")] ∧
     (((run exT {} exOps2).classes.flatMap (fun c => c.propDict.map (·.2))).eraseDups.length = 3) := by
   decide +kernel
+
+/-- the class bodies of this program are Python dicts (hypothesis `WellFormed` of `class_mprops_faithful` and
+`order_independent_mprops`) … -/
+example : ∀ op ∈ exOps2, WellFormed op := by
+  intro op hop
+  simp only [exOps2, List.mem_cons, List.not_mem_nil, or_false] at hop
+  rcases hop with rfl | rfl | rfl | rfl | rfl | rfl | rfl <;>
+    first | trivial | (simp only [WellFormed, KeysNodup]; decide +kernel)
+
+def exEnv2 (n : Name) : Option ClassDecl :=
+  if n = "M" then some dM else if n = "P" then some dP else if n = "Q" then some dQ else none
+
+/-- … and it is consistent with inheritance w.r.t. its own class bodies (hypothesis of `order_independent_mprops`);
+so is every other inheritance-respecting arrangement of these definitions among other operations -/
+example : ConsistentRun exT exEnv2 {} exOps2 := by
+  refine ⟨⟨by simp [exEnv2, dM], fun m hm => ?_⟩, ⟨by simp [exEnv2, dP], fun m hm => ?_⟩, trivial,
+    ⟨by simp [exEnv2, dQ], fun m hm => ?_⟩, trivial, trivial, trivial, trivial⟩
+  · simp [dM] at hm
+  · simp only [dP, List.tail_cons, List.mem_singleton] at hm
+    subst hm
+    intro _ h
+    have : ((step exT {} (.define dM)).findClass "M").isSome = true := by decide +kernel
+    rw [h] at this
+    cases this
+  · simp only [dQ, List.tail_cons, List.mem_cons, List.not_mem_nil, or_false] at hm
+    rcases hm with rfl | rfl
+    · intro _ h
+      have : ((run exT {} (exOps2.take 3)).findClass "P").isSome = true := by decide +kernel
+      have h' : (run exT {} (exOps2.take 3)).findClass "P" = none := h
+      rw [h'] at this
+      cases this
+    · intro _ h
+      have : ((run exT {} (exOps2.take 3)).findClass "M").isSome = true := by decide +kernel
+      have h' : (run exT {} (exOps2.take 3)).findClass "M" = none := h
+      rw [h'] at this
+      cases this
 
 /-- kind and the properties of the members, as far as the example needs them -/
 def shape (t : DTree) : String × List PropMap := (t.kind, t.children.map (·.props))
